@@ -38,7 +38,7 @@ Proof.
   { intros s2 H2 H3. exists pa. split; [exact H2|left; split; [reflexivity|exact H3]]. }
   destruct st as [m|].
   - unfold exec_step. destruct (exec_msg s m) as [s' rw|o] eqn:E; cbn [fst snd]; [|exact (Hsame s Hg (refund_at_fail _ _ _ _ E))].
-    destruct m as [who lpt start ed rules|who pid' d amt|who pid' d amt|who pid'|who pid' add rpb|who pid']; simpl in E.
+    destruct m as [who lpt start ed rules|who pid' d amt|who pid' d amt|who pid'|who pid' add rpb|who pid'|who cf tr]; simpl in E.
     + destruct (create_Done _ _ _ _ _ _ _ _ E) as (b1 & b2 & iv & _ & _ & _ & _ & _ & _ & _ & _ & ->).
       apply Hsame; [|reflexivity]. simpl. rewrite get_set_other by lia. exact Hg.
     + destruct (stake_Done _ _ _ _ _ _ _ E) as (p0 & b1 & p1 & b2 & rw0' & db & b3 & Hs). cbv zeta in Hs.
@@ -69,6 +69,7 @@ Proof.
       destruct (update_succeeds s pid pa (bank s) 0 true I Hg Hq ltac:(intros; lia)) as (p1' & b1' & Hok').
       destruct (refund_cases _ _ _ _ _ Hr) as [(p1 & b1 & Hu & _)|(p1 & b1 & b' & Hu & -> & _)]; [congruence|].
       eexists. split; [simpl; rewrite get_set_same; reflexivity|]. right. right. split; [exact Hq|exact (upd_last _ _ _ _ _ _ _ Hu)].
+    + destruct (update_params_Done _ _ _ _ _ _ E) as (_ & _ & _ & _ & ->). apply Hsame; [exact Hg|reflexivity].
   - unfold exec_step. cbn [fst snd]. simpl pools. unfold end_block.
     destruct (in_dec Z.eq_dec pid (due s)) as [Hin|Hni]; [|apply Hsame; [rewrite fold_other by exact Hni; exact Hg|]].
     2:{ unfold refund_at. cbn [refund_event]. apply in_queue_false. intros Hi. apply Hni. apply in_due. exact Hi. }
@@ -84,7 +85,7 @@ Lemma step_height s st : inv s ->
 Proof.
   intros I. unfold step_state. destruct st as [m|].
   - unfold exec_step. destruct (exec_msg s m) as [s' rw|o] eqn:E; cbn [fst snd]; [|reflexivity].
-    destruct m as [who lpt start ed rules|who pid' d amt|who pid' d amt|who pid'|who pid' add rpb|who pid']; simpl in E.
+    destruct m as [who lpt start ed rules|who pid' d amt|who pid' d amt|who pid'|who pid' add rpb|who pid'|who cf tr]; simpl in E.
     + destruct (create_Done _ _ _ _ _ _ _ _ E) as (b1 & b2 & iv & _ & _ & _ & _ & _ & _ & _ & _ & ->). reflexivity.
     + destruct (stake_Done _ _ _ _ _ _ _ E) as (p0 & b1 & p1 & b2 & rw0' & db & b3 & Hs). cbv zeta in Hs.
       destruct Hs as (_ & _ & _ & _ & _ & _ & _ & _ & _ & _ & _ & ->). reflexivity.
@@ -97,6 +98,7 @@ Proof.
     + destruct (destroy_Done _ _ _ _ _ E) as (p0 & Hg0 & _ & _ & Hex & Hr & _).
       pose proof (not_expired_in_queue _ _ _ I Hg0 Hex) as Hq.
       destruct (refund_effect _ _ _ _ _ I Hg0 Hq Hr) as (_ & _ & _ & _ & _ & _ & H & _). exact H.
+    + destruct (update_params_Done _ _ _ _ _ _ E) as (_ & _ & _ & _ & ->). reflexivity.
   - unfold exec_step. cbn [fst snd height].
     destruct (end_block_fold (due s) s I (NoDup_due _ (i_qnd _ I)) (fun x H => proj1 (in_due s x) H)) as (_ & Hh & _).
     unfold end_block. rewrite Hh. reflexivity.
